@@ -61,8 +61,10 @@ SPEC = {
         "are compared)",
         "cell-death stream: while a trainer still holds entries of a cell whose LAYER died, the programs do not switch that "
         "trainer to training mode (on the real code `trainer.train()` then raises RuntimeError: the left-over monitors cannot "
-        "be registered, and nothing but registering a cell under the same name removes them) — reported as an observation, "
-        "not searched",
+        "be registered, and nothing but registering a cell under the same name removes them), and a cell with a live MSTDPET "
+        "registration is not deleted from a living layer (its eligibility monitors stay hooked to the layer, read "
+        "`cell.monitors` of a cell that is gone / new, and the layer's next step raises AttributeError) — both reported as "
+        "observations, not searched",
         "CPython's collector is modelled as reference counting: a monitor no pool holds any more is finalised at once; the harness "
         "keeps no reference to monitors or units and calls gc.collect() after dropping a trainer",
         "monitors are post-hooks with train_update=True, eval_update=False (what every shipped trainer uses; user-added monitors "
@@ -95,7 +97,8 @@ class OpenBiclique(Biclique):
     """a custom Layer: a Biclique whose cells can be deleted and re-created (through `Layer`'s own add_cell / del_cell)"""
 
     def add_cell(self, connection, neuron):
-        return Layer.add_cell(self, connection, neuron)
+        # (a fresh nn.Module is in training mode whatever its parent's mode is: the layer hands the cell its own mode)
+        return Layer.add_cell(self, connection, neuron).train(self.training)
 
     def del_cell(self, connection, neuron):
         return Layer.del_cell(self, connection, neuron)
@@ -241,7 +244,9 @@ class Real:
             own_s = ",".join(own) or "-"
         mons, e4 = self._listing(lambda: tr.monitors)
         if self.death and not (e3 or e4):
-            mons = [m for m in mons if any(x is m for _, x in named)]
+            # (in the order of the restricted listing: where the dead cells' left-overs stood in the pool is not compared)
+            pos = lambda m: next(i for i, (_, x) in enumerate(named) if x is m)
+            mons = sorted((m for m in mons if any(x is m for _, x in named)), key=pos)
         if e4:
             mons_s = f"ERR({e4})"
         elif e3:
@@ -324,7 +329,8 @@ class Real:
             l = int(tok[1])
             ref = weakref.ref(self.layers[l])
             del self.layers[l]
-            gc.collect()
+            if ref() is not None:
+                gc.collect()                     # (reference counting alone normally frees it: a full collection costs 0.1 s)
             out = "ok" if ref() is None else "ok[layer still alive]"
             self.layers[l] = self._build_layer(l)
             return out
@@ -334,7 +340,8 @@ class Real:
             layer = self.layers[l]
             ref = weakref.ref(layer.cells_[f"c{c}"][f"n{n}"])
             layer.del_cell(f"c{c}", f"n{n}")
-            gc.collect()
+            if ref() is not None:
+                gc.collect()
             out = "ok" if ref() is None else "ok[cell still alive]"
             layer.add_cell(f"c{c}", f"n{n}")
             return out
@@ -429,8 +436,8 @@ def cross_layer_prone(case):
 
 def is_cross_layer_symptom(case, i, expected, observed):
     """the monitor listed for a cell is registered with another layer than the cell's"""
-    if not cross_layer_prone(case[: i + 1]):
-        return False
+    if is_death(case) or not cross_layer_prone(case[: i + 1]):
+        return False                            # (cell-death programs: a monitor inherited from a dead cell is its own symptom)
     fe, fo = fields(expected), fields(observed)
     for k in fe:
         if k.endswith(".named") and k in fo:
@@ -835,6 +842,11 @@ def death_program(rng, maxlen=40, two_layers=False):
             die({c for c, tp in enumerate(triples) if tp[0] == l}, True)
         else:
             c = rng.randrange(ncells)
+            if any(kinds[x] == 1 and c in names[x].values() for x in alive):
+                # see SPEC["assumptions"]: an MSTDPET registration's eligibility monitors read `cell.monitors` through the
+                # LAYER's path to the cell; they stay hooked to the living layer and raise on its next step
+                lines.append(lstep())
+                continue
             lines.append(f"recell {c}")
             die({c}, False)
     return lines
@@ -850,8 +862,9 @@ def scripted_death_cases():
         out.append([B("0:0:0,0:0:1,0:1:0,0:1:1"), f"trainer {k} {cls}"] + [f"register 0 {n} {n} 0" for n in range(3)] +
                    ["lstep 0", "lstep 0", "tstep 0", "relayer 0"] + [f"register 0 {n} {n} 0" for n in range(3)] +
                    ["lstep 0", "lstep 0", "tstep 0", "ttrain 0 F", "lstep 0", "ttrain 0 T", "lstep 0", "tstep 0"])
+    for cls in ("STDP", "MSTDP"):
         # one cell is deleted and re-created by its layer; registered again under the old name (other cell / other variant)
-        out.append([B("0:0:0,0:1:0"), f"trainer {k} {cls}", "register 0 0 0 0", "register 0 1 1 0", "lstep 0", "lstep 0",
+        out.append([B("0:0:0,0:1:0"), f"trainer 0 {cls}", "register 0 0 0 0", "register 0 1 1 0", "lstep 0", "lstep 0",
                     "recell 0", "lstep 0", "register 0 0 0 1", "lstep 0", "tstep 0", "ttrain 0 F", "ttrain 0 T", "lstep 0",
                     "tstep 0", "recell 1", "delcell 0 0", "register 0 1 0 0", "lstep 0", "tstep 0"])
     # one of two layers dies; the survivor's cells keep recording; the old name goes to a cell of the other layer
